@@ -103,6 +103,27 @@ Proof.
 Qed.
 
 (* ------------------------------------------------------------------ *)
+(** * the store keyed by hash values *)
+
+(** C06 hashed_query_correct: the statement of the property for the store as
+    the implementation keeps it - 64-bit keys [key64 xx k], tag hashes [md5 s]
+    (SqlHashed.v) - for any functions [xx], [md5] that do not collide on what
+    the history and the filter list mention.  Here [no_collision] is used. *)
+Theorem hashed_query_correct
+  (xx : Z -> str -> Z) (md5 : str -> str) seed (h : list (list event)) fs maxLimit :
+  no_collision xx md5 seed (concat h) fs ->
+  gate_valid (concat h) -> ids_functional (concat h) ->
+  e_refs_canonical (concat h) = true -> a_refs_scoped (concat h) = true ->
+  fs <> [] -> Forall (fun f => gate_valid_filter f = true) fs -> 0 < maxLimit <= NoLimit ->
+  exists out, query_h md5 (run_h xx md5 seed empty_db h) fs maxLimit = Some out /\
+              query_spec (concat h) fs maxLimit out.
+Proof.
+  intros NC G F Ec As Ne Gf Hml.
+  destruct (hashed_store_refines xx md5 seed h fs maxLimit NC) as [_ E]. rewrite E.
+  now apply (query_correct xx md5).
+Qed.
+
+(* ------------------------------------------------------------------ *)
 (** * the former witnesses now behave as specified *)
 
 Definition w_pk : str := repeat 97%N 64.
@@ -138,3 +159,22 @@ Proof.
       try reflexivity; vm_compute in E; discriminate. }
   split; [reflexivity|]. split; [reflexivity|]. vm_compute. reflexivity.
 Qed.
+
+(** [no_collision] is satisfiable: an injective positional encoding in place
+    of xxHash32, the identity in place of MD5, on the history above *)
+Definition ex_xx (sd : Z) (s : str) : Z := fold_left (fun acc c => acc * 257 + Z.of_N c + 1) s sd.
+
+Example no_collision_example :
+  no_collision ex_xx (fun s => s) 0 (concat [[w_meta1; w_note]; [w_del3]]) [f_all; f_limit0].
+Proof.
+  split.
+  - intros a b Ha Hb E. vm_compute in Ha, Hb.
+    destruct Ha as [<- |[<- |[<- |[]]]]; destruct Hb as [<- |[<- |[<- |[]]]];
+      try reflexivity; vm_compute in E; discriminate.
+  - intros a b Ha Hb E. exact E.
+Qed.
+
+Example hashed_query_example :
+  query_h (fun s => s) (run_h ex_xx (fun s => s) 0 empty_db [[w_meta1; w_note]; [w_del3]]) [f_all; f_limit0] NoLimit
+  = Some [w_del3; w_meta1].
+Proof. vm_compute. reflexivity. Qed.
